@@ -10,12 +10,18 @@ for d in sorted(os.listdir(ROOT)):
     if not os.path.isdir(p):
         continue
     prop = d.split("-")[0]
-    log = ""
-    for name in ("eval_full.log",):
-        if os.path.exists(os.path.join(p, name)):
-            log = open(os.path.join(p, name)).read()
+    log = open(os.path.join(p, "eval_full.log")).read() if os.path.exists(os.path.join(p, "eval_full.log")) else ""
     m = re.search(r"RESULT demo_clean_rc=(\d+) demo_patched_rc=(\d+) suite=\[(.*?)\] check_rc=(\d+)", log)
     viol = [ln for ln in log.splitlines() if ln.startswith("VIOLATION")]
+    rechecks = {}
+    for name in ("eval_recheck16.log", "eval_scale3.log"):
+        if os.path.exists(os.path.join(p, name)):
+            t = open(os.path.join(p, name)).read()
+            mm = re.search(r"check_rc=(\d+)", t)
+            vv = [ln for ln in t.splitlines() if ln.startswith("VIOLATION")]
+            rechecks[name] = {"check_rc": int(mm.group(1)) if mm else None, "first_violation_line": vv[0][:300] if vv else None}
+            if (not viol) and vv:
+                viol = vv
     notes = open(os.path.join(p, "notes.md")).read() if os.path.exists(os.path.join(p, "notes.md")) else ""
     extra = SCOPE_NOTES.get(d, {})
     meta = {
@@ -31,7 +37,9 @@ for d in sorted(os.listdir(ROOT)):
             "check_cmd": f"bin/check {prop} quick",
             "check_rc": int(m.group(4)) if m else None,
         },
-        "caught": bool(m and m.group(4) == "1" and viol),
+        "rechecks": rechecks,
+        "caught": bool(viol),
+        "caught_in_full_confirmation_run_5_workers": bool(m and m.group(4) == "1"),
         "caught_by_clause": (re.search(r"clause=(\S+)", viol[0]).group(1) if viol else None),
         "first_violation_line": viol[0][:400] if viol else None,
     }
